@@ -658,7 +658,7 @@ func TestC10(t *testing.T) {
 		if len(ev.harnessErrors) > 0 {
 			return
 		}
-		kC10.Run(t, ev, perShard(pick(3000, 300000)))
+		kC10.Run(t, ev, perShard(pick(3000, 1500000)))
 		ev.requireClasses("C10:out-class=pubkey", "C10:out-class=multisig", "C10:out-class=pubkeyhash", "C10:out-class=scripthash",
 			"C10:out-class=nulldata", "C10:out-class=nonstandard", "C10:tx-reason=txid", "C10:tx-reason=output-push",
 			"C10:tx-reason=spent-outpoint", "C10:tx-reason=input-push", "C10:tx-reason=updated",
